@@ -27,10 +27,12 @@ FIXED = [
  (["C13"], "fix: compiling or invoking does not consume", "env-not-reusable", "a *types.Env / *val.Env could be used once: the second Compile / invocation failed with 'env.parent != nil'"),
  (["C14"], "fix: the fresh type-variable counter", "data-race", "data race on the process-wide type-variable counter when two engines compile polymorphic calls"),
  (["C01", "C07"], "fix: object fields are read by name", "value-type-mismatch", "[{a:1,b:\"x\"},{b:\"y\",a:2}][1].a yielded the string \"y\" at type num; o.a compiled for struct{A;B} read the wrong field of struct{B;A}"),
+ (["C05"], "fix: monomorphic overloads are found", "rejects-well-typed", "a mono overload f({a:num,b:str}) was not found for the argument {b:\"x\",a:1} (lookup key is the rendered tuple)"),
  (["C17"], "fix: Unify accepts types that share", "unify-panic-on-shared-acyclic-input", "Unify((listT,listT),(T,T)) with shared pointers panicked 'not support recursive type'"),
 ]
 OPEN = [
  # property, class, detail_regex, key_regex, what
+ ("C03", "callthread-exec-limit", "", "", "the call-threaded dispatch loop aborts with 'over exec limit' after 1024 instructions (const limit in vm/gen_test.go, which regenerates vm/callthread.go on every test run and may not be edited); the switch loop, closure compiler and interpreter have no such cap"),
 ]
 out = []
 for props, prefix, cls, what in FIXED:
